@@ -201,6 +201,13 @@ Definition name_of (e : expr) : option string :=
   | _ => None
   end.
 
+Definition pm_list (f : pexp -> res expr) : list pexp -> res (list expr) :=
+  fix go (l : list pexp) : res (list expr) :=
+    match l with
+    | [] => Ok []
+    | x :: r => bind (f x) (fun x' => bind (go r) (fun r' => Ok (x' :: r')))
+    end.
+
 Fixpoint pm (par : option string) (e : pexp) {struct e} : res expr :=
   match e with
   | PNum n => Ok (EInt n)
@@ -220,17 +227,9 @@ Fixpoint pm (par : option string) (e : pexp) {struct e} : res expr :=
       | PVar name =>
           if is_cast_name name then Err EUnsupported
           else if fintr_name name then
-            bind ((fix go (l : list pexp) : res (list expr) :=
-                     match l with
-                     | [] => Ok []
-                     | x :: r => bind (pm par x) (fun x' => bind (go r) (fun r' => Ok (x' :: r')))
-                     end) args) (fun a' => Ok (ECall name a'))
+            bind (pm_list (fun x => pm par x) args) (fun a' => Ok (ECall name a'))            (* the parent leaks into the arguments *)
           else
-            bind ((fix go (l : list pexp) : res (list expr) :=
-                     match l with
-                     | [] => Ok []
-                     | x :: r => bind (pm None x) (fun x' => bind (go r) (fun r' => Ok (x' :: r')))
-                     end) args) (fun a' => Ok (ECall (qual par name) a'))
+            bind (pm_list (fun x => pm None x) args) (fun a' => Ok (ECall (qual par name) a'))
       | _ => Err EUnsupported
       end
   | PLookup a n =>
@@ -575,6 +574,13 @@ with std_lexpr (e : lexpr) : bool :=
 Inductive fexpr := FArith (e : lvl2) | FLogic (e : lexpr).
 Definition y_fexpr (d : fexpr) : list token := match d with FArith e => y_l2 e | FLogic e => y_lexpr e end.
 Definition std_prec (d : fexpr) : bool := match d with FArith e => std_l2 e | FLogic e => std_lexpr e end.
+
+(** value of a derivation / of the tree the parser returns for it *)
+Inductive fval := VZ (z : option Z) | VB (b : option bool).
+Definition v_fexpr (rho : env) (d : fexpr) : fval :=
+  match d with FArith e => VZ (v_l2 rho e) | FLogic e => VB (v_lexpr rho e) end.
+Definition tree_val (rho : env) (d : fexpr) (t : expr) : fval :=
+  match d with FArith _ => VZ (evalZ rho t) | FLogic _ => VB (evalL rho t) end.
 
 (** * Correspondence comparators (evaluated with vm_compute on every run) *)
 Definition cmpop_eqb (a b : cmpop) : bool :=
